@@ -32,10 +32,10 @@ struct Case {
 void gen_graph(verif::Src& s, Case& c, size_t maxn)
 {
     size_t n;
-    switch (s.range<unsigned>(0, 3)) {
+    switch (s.range<unsigned>(0, 5)) {
     case 0: n = s.range<size_t>(1, std::min<size_t>(maxn, 6)); break;
-    case 1: n = s.range<size_t>(1, std::min<size_t>(maxn, 14)); break;
-    case 2: n = s.range<size_t>(1, std::min<size_t>(maxn, 32)); break;
+    case 1: case 2: n = s.range<size_t>(std::min<size_t>(maxn, 3), std::min<size_t>(maxn, 14)); break;
+    case 3: case 4: n = s.range<size_t>(std::min<size_t>(maxn, 4), std::min<size_t>(maxn, 32)); break;
     default: n = s.range<size_t>(1, maxn); break;
     }
     // hidden topological order -> DepGraph index
